@@ -471,6 +471,17 @@ def predicate_scenarios(prog: Program, fi: FuncInfo, edges, depth: int = 0) -> l
     for b, lab in sorted(edges, key=lambda x: x[0].id):
         for a, truth in must_atoms([(b, lab)]):
             alts: list[list[tuple[ast.AST, bool, FuncInfo, Node | None]]] = [[(a, truth, fi, b)]]
+            if isinstance(a, ast.BoolOp) and depth < 3 and ((isinstance(a.op, ast.And) and not truth) or (isinstance(a.op, ast.Or) and truth)):
+                # a conjunction known to be false (a disjunction known to be true): one scenario per operand that decided it, the
+                # operands before it having let evaluation through
+                alts = []
+                passing = isinstance(a.op, ast.And)  # earlier operands of a failed `and` were true; of a passed `or`, false
+                for i, v in enumerate(a.values):
+                    fakes = {(type("N", (), {"kind": "test", "ast": w, "id": -(10 * i + j) - 1})(), "T" if passing else "F") for j, w in enumerate(a.values[:i])}
+                    fakes.add((type("N", (), {"kind": "test", "ast": v, "id": -(10 * i) - 9})(), "F" if passing else "T"))
+                    for sub in predicate_scenarios(prog, fi, fakes, depth + 1):
+                        alts.append([(x_a, x_t, x_f, b if x_f is fi else _n) for x_a, x_t, x_f, _n in sub])
+                alts = alts or [[(a, truth, fi, b)]]
             if isinstance(a, ast.Call) and depth < 2:
                 t = prog.resolve_call(fi, a)
                 if isinstance(t, list) and len(t) == 1 and not isinstance(t[0].node, ast.Lambda):
